@@ -204,6 +204,9 @@ func (w *World) noteSignal(c *CallRec, got *rpc.Call) {
 }
 
 func (w *World) fireFault(f *Fault) {
+	if w.FaultSeq == 0 {
+		w.FaultSeq = simrt.Seq()
+	}
 	switch f.Kind {
 	case "cut":
 		if p := w.ConnPipe[f.Conn]; p != nil {
@@ -498,7 +501,13 @@ func (w *World) runClient(ci int) {
 			args, reply := w.argsAndReply(c)
 			c.done = make(chan *rpc.Call, 4)
 			c.Invoke, c.InvokeT = simrt.Seq(), simrt.Now()
-			c.call = conn.Go(c.Method, args, reply, c.done)
+			if op.NilDone {
+				// "If done is nil, Go will allocate a new channel": completion is awaited on that one
+				c.call = conn.Go(c.Method, args, reply, nil)
+				c.done = c.call.Done
+			} else {
+				c.call = conn.Go(c.Method, args, reply, c.done)
+			}
 			outstanding = append(outstanding, c)
 		case "gos":
 			if shared == nil {
